@@ -23,8 +23,17 @@ open CuqiVerif CuqiVerif.Proto CuqiVerif.C06
 
 abbrev Q := Rat
 
-def matOf (l : List (List Q)) : Mat Q := ofRows (l.map List.toArray).toArray
-def vecOf (l : List Q) : Vec Q := ofArr l.toArray
+/-- tabulated matrix / vector as *data* (so that it is computed once) -/
+structure TM where
+  a : Array (Array Q)
+structure TV where
+  a : Array Q
+def TM.f (t : TM) : Mat Q := ofRows t.a
+def TV.f (t : TV) : Vec Q := ofArr t.a
+def tm (m n : Nat) (A : Mat Q) : TM := ⟨tabRows m n A⟩
+def tv (n : Nat) (v : Vec Q) : TV := ⟨tabArr n v⟩
+def tmOf (l : List (List Q)) : TM := ⟨(l.map List.toArray).toArray⟩
+def tvOf (l : List Q) : TV := ⟨l.toArray⟩
 
 def parseKind : String → Option Kind
   | "cov" => some .cov | "prec" => some .prec | "sqrtcov" => some .sqrtcov | "sqrtprec" => some .sqrtprec
@@ -34,28 +43,27 @@ def parseKind : String → Option Kind
 def parseShape (s : String) : Option (Shape Q × Nat × Nat) :=
   match s.splitOn ":" with
   | ["s", q] => (fun c => (Shape.scalar c, 1, 1)) <$> parseRat q
-  | ["v", v] => (fun l => (Shape.vector (vecOf l), l.length, 1)) <$> parseVec v
-  | ["m", m] => (fun l => (Shape.matrix (matOf l), l.length, QMat.ncols l)) <$> parseMat m
+  | ["v", v] => (fun l => let t := tvOf l; (Shape.vector t.f, l.length, 1)) <$> parseVec v
+  | ["m", m] => (fun l => let t := tmOf l; (Shape.matrix t.f, l.length, QMat.ncols l)) <$> parseMat m
   | _ => none
 
-def listM (m n : Nat) (A : Mat Q) : QMat.Mat := toListM m n A
-
 /-- certified inverse of an `n × n` model matrix (untrusted elimination, checked product) -/
-def certInv (n : Nat) (A : Mat Q) : Option (Mat Q) :=
-  match QMat.inverse (listM n n A) with
-  | some Ai => if QMat.isInverse (listM n n A) Ai then some (matOf Ai) else none
+def certInv (n : Nat) (A : TM) : Option TM :=
+  let l := toListM n n A.f
+  match QMat.inverse l with
+  | some Ai => if QMat.isInverse l Ai then some (tmOf Ai) else none
   | none => none
 
 /-- precision matrix of a specification (`code`: as the code takes it, else as documented) -/
-def precOf (code : Bool) (n : Nat) (k : Kind) (sh : Shape Q) : Option (Mat Q) :=
-  let S := tabM n n (specMat code n k sh)
+def precOf (code : Bool) (n : Nat) (k : Kind) (sh : Shape Q) : Option TM :=
+  let S := tm n n (specMat code n k sh)
   if k.isCov then certInv n S else some S
 
 structure LikD where
   m : Nat
-  A : Mat Q
-  d : Vec Q
-  L : Mat Q
+  A : TM
+  d : TV
+  L : TM
   kind : Kind
   shape : Shape Q
   refused : Bool
@@ -63,8 +71,8 @@ structure LikD where
 structure PriorD where
   prior : Prior Q
   /-- (P, P·μ) as the code takes it / as documented; `none` when singular -/
-  code : Option (Mat Q × Vec Q)
-  doc : Option (Mat Q × Vec Q)
+  code : Option (TM × TV)
+  doc : Option (TM × TV)
   refused : Bool
 
 def refusedSpec (n : Nat) (k : Kind) (sh : Shape Q) (r c : Nat) : Bool :=
@@ -84,21 +92,21 @@ def parseLiks (n : Nat) : Nat → List String → Option (List LikD × List Stri
     let kd ← parseKind kd
     let (sh, r, c) ← parseShape sh
     let (rest, ts') ← parseLiks n k ts
-    some ({ m := m, A := matOf A, d := vecOf d, L := matOf L, kind := kd, shape := sh,
+    some ({ m := m, A := tmOf A, d := tvOf d, L := tmOf L, kind := kd, shape := sh,
             refused := refusedSpec m kd sh r c } :: rest, ts')
   | _, _ => none
 
-def precTimes (n : Nat) (P : Option (Mat Q)) (mu : Vec Q) : Option (Mat Q × Vec Q) :=
-  P.map fun P => (P, tabV n (mulVec n P mu))
+def precTimes (n : Nat) (P : Option TM) (mu : Vec Q) : Option (TM × TV) :=
+  P.map fun P => (P, tv n (mulVec n P.f mu))
 
-def parseJoint (n : Nat) : Nat → List String → Option (List (Nat × Mat Q × Vec Q) × List String)
+def parseJoint (n : Nat) : Nat → List String → Option (List (Nat × TM × TV) × List String)
   | 0, ts => some ([], ts)
   | k + 1, r :: R :: mu :: ts => do
     let r ← r.toNat?
     let R ← parseMat R
     let mu ← parseVec mu
     let (rest, ts') ← parseJoint n k ts
-    some ((r, matOf R, vecOf mu) :: rest, ts')
+    some ((r, tmOf R, tvOf mu) :: rest, ts')
   | _, _ => none
 
 def parsePrior (n : Nat) : List String → Option (PriorD × List String)
@@ -108,8 +116,12 @@ def parsePrior (n : Nat) : List String → Option (PriorD × List String)
     let mean ← parseVec mean
     let kd ← parseKind kd
     let (sh, r, c) ← parseShape sh
-    let mu := gaussMean ml (vecOf mean)
-    some ({ prior := gaussPrior n (matOf L2) ml (vecOf mean),
+    let L2t := tmOf L2
+    let meant := tvOf mean
+    let mu := gaussMean ml meant.f
+    let pr0 := gaussPrior n L2t.f ml meant.f
+    let l2mu := tv n pr0.L2mu
+    some ({ prior := { pr0 with L2mu := l2mu.f },
             code := precTimes n (precOf true n kd sh) mu,
             doc := precTimes n (precOf false n kd sh) mu,
             refused := refusedSpec n kd sh r c || (ml != 1 && ml != n) }, ts)
@@ -117,16 +129,24 @@ def parsePrior (n : Nat) : List String → Option (PriorD × List String)
     let L2 ← parseMat L2
     let mean ← parseVec mean
     let P ← parseMat P
-    let pm := precTimes n (some (matOf P)) (vecOf mean)
-    some ({ prior := gmrfPrior n (matOf L2) (vecOf mean), code := pm, doc := pm,
+    let L2t := tmOf L2
+    let meant := tvOf mean
+    let pm := precTimes n (some (tmOf P)) meant.f
+    let pr0 := gmrfPrior n L2t.f meant.f
+    let l2mu := tv n pr0.L2mu
+    some ({ prior := { pr0 with L2mu := l2mu.f }, code := pm, doc := pm,
             refused := mean.length != n }, ts)
   | "joint" :: nb :: ts => do
     let nb ← nb.toNat?
     let (bs, ts') ← parseJoint n nb ts
     -- documented: product of the independent Gaussians N(μᵢ, (RᵢᵀRᵢ)⁻¹)
-    let P : Mat Q := tabM n n fun i j => (bs.map fun b => gram b.1 b.2.1 i j).foldl (· + ·) 0
-    let Pmu : Vec Q := tabV n fun i => (bs.map fun b => mulVec n (gram b.1 b.2.1) b.2.2 i).foldl (· + ·) 0
-    some ({ prior := jointPrior n bs, code := some (P, Pmu), doc := some (P, Pmu), refused := false }, ts')
+    let P := tm n n fun i j => (bs.map fun b => gram b.1 b.2.1.f i j).foldl (· + ·) 0
+    let Pmu := tv n fun i => (bs.map fun b => tmulVec b.1 b.2.1.f (tabV b.1 (mulVec n b.2.1.f b.2.2.f)) i).foldl (· + ·) 0
+    let pr0 := jointPrior n (bs.map fun b => (b.1, b.2.1.f, b.2.2.f))
+    let L2t := tm pr0.p n pr0.L2
+    let l2mu := tv pr0.p pr0.L2mu
+    some ({ prior := { p := pr0.p, L2 := L2t.f, L2mu := l2mu.f }, code := some (P, Pmu), doc := some (P, Pmu),
+            refused := false }, ts')
   | _ => none
 
 structure ProblemD where
@@ -144,44 +164,73 @@ def parseProblem : List String → Option (ProblemD × List String)
   | _ => none
 
 def ProblemD.matLiks (P : ProblemD) : List (MatLik Q) :=
-  P.liks.map fun l => { m := l.m, L := l.L, A := l.A, d := l.d }
+  P.liks.map fun l => { m := l.m, L := l.L.f, A := l.A.f, d := l.d.f }
 
 def ProblemD.problem (P : ProblemD) : Problem Q := problemOf P.n P.matLiks P.prior.prior
 
 /-- posterior moments from precisions: `H = Σ AᵢᵀΛᵢAᵢ + P`, `g = Σ AᵢᵀΛᵢdᵢ + Pμ` -/
-def moments (P : ProblemD) (code : Bool) : Option (Vec Q × Mat Q) := do
+def moments (P : ProblemD) (code : Bool) : Option (TV × TM) := do
   let (Pp, Pmu) ← if code then P.prior.code else P.prior.doc
-  let lams ← P.liks.mapM fun l => (precOf code l.m l.kind l.shape).map fun Lam => (l, Lam)
+  let lams ← P.liks.mapM fun l => (precOf code l.m l.kind l.shape).map fun Lam =>
+    (l, tm l.m P.n (mul l.m Lam.f l.A.f), tv l.m (mulVec l.m Lam.f l.d.f))
   let n := P.n
-  let H : Mat Q := tabM n n fun i j =>
-    (lams.map fun (l, Lam) => mul l.m (tr l.A) (tabM l.m n (mul l.m Lam l.A)) i j).foldl (· + ·) (Pp i j)
-  let g : Vec Q := tabV n fun i =>
-    (lams.map fun (l, Lam) => tmulVec l.m l.A (tabV l.m (mulVec l.m Lam l.d)) i).foldl (· + ·) (Pmu i)
+  let H := tm n n fun i j =>
+    (lams.map fun (l, LamA, _) => mul l.m (tr l.A.f) LamA.f i j).foldl (· + ·) (Pp.f i j)
+  let g := tv n fun i =>
+    (lams.map fun (l, _, Lamd) => tmulVec l.m l.A.f Lamd.f i).foldl (· + ·) (Pmu.f i)
   let C ← certInv n H
-  some (tabV n (mulVec n C g), C)
+  some (tv n (mulVec n C.f g.f), C)
 
 def fmtV (n : Nat) (v : Vec Q) : String := fmtVec (toListV n v)
 def fmtM (m n : Nat) (A : Mat Q) : String := fmtMat (toListM m n A)
 
 /-- offset, linear part and covariance of the least-squares map for a stacked operator given by
     its two actions; also reports whether flag 2 is the exact transpose of flag 1 -/
-def lsqReport (N n : Nat) (fwd adj : Vec Q → Vec Q) (b : Vec Q) : Option (Bool × Vec Q × Mat Q × Mat Q) :=
+def lsqReport (N n : Nat) (fwd adj : Vec Q → Vec Q) (b : Vec Q) : Option (Bool × TM × TV × TM × TM) :=
   -- columns of flag 1 / rows of flag 2
-  let M : Mat Q := tabM N n fun i j => fwd (unit j) i
-  let Mt : Mat Q := tabM n N fun j i => adj (unit i) j
-  let adjOk := (List.range N).all fun i => (List.range n).all fun j => M i j == Mt j i
-  let H := tabM n n (gram N M)
+  let M := tm N n fun i j => fwd (unit j) i
+  let Mt := tm n N fun j i => adj (unit i) j
+  let adjOk := (List.range N).all fun i => (List.range n).all fun j => M.f i j == Mt.f j i
+  let H := tm n n (gram N M.f)
   match certInv n H with
   | none => none
   | some C =>
-    let B := tabM n N (mul n C (tr M))
-    let m := tabV n (mulVec N B b)
-    some (adjOk, m, B, C)
+    let B := tm n N (mul n C.f (tr M.f))
+    let m := tv n (mulVec N B.f b)
+    some (adjOk, M, m, B, C)
 
-def optPair (o : Option (Vec Q × Mat Q)) (n : Nat) : String :=
+def optPair (o : Option (TV × TM)) (n : Nat) : String :=
   match o with
-  | some (m, C) => s!"{fmtV n m} {fmtM n n C}"
+  | some (m, C) => s!"{fmtV n m.f} {fmtM n n C.f}"
   | none => "singular singular"
+
+def parseTarget : String → Option TargetKind
+  | "posterior" => some .posterior | "multiple" => some .multiple | "other" => some .other | _ => none
+
+def fmtRefusal : Refusal → String
+  | .ok => "ok" | .valueError => "ValueError" | .typeError => "TypeError"
+
+def runUgla (n m : Nat) (A : TM) (d : TV) (L1 : TM) (kd : Kind) (sh : Shape Q) (p : Nat) (D : TM) (loc : TV)
+    (s : Q) (w : TV) (invScale : Q) (wdoc : TV) : String :=
+  let U : Ugla Q := { n := n, lik := { m := m, L := L1.f, A := A.f, d := d.f }, p := p,
+                      D := D.f, loc := loc.f, s := s, w := w.f }
+  let N := U.rows
+  let b := tv N U.bTilde
+  match lsqReport N n U.Mfwd U.Madj b.f with
+  | none => "singular"
+  | some (adjOk, M, mm, B, C) =>
+    let same := (List.range N).all fun i => (List.range n).all fun j => U.Mmat i j == M.f i j
+    -- documented local Gaussian: precision AᵀΛA + (1/scale) Dᵀ diag(wdoc) D
+    let doc : Option (TV × TM) := do
+      let Lam ← precOf false m kd sh
+      let Pp := tm n n fun i j => invScale * sumTo p fun k => D.f k i * (wdoc.f k * D.f k j)
+      let LamA := tm m n (mul m Lam.f A.f)
+      let Lamd := tv m (mulVec m Lam.f d.f)
+      let H := tm n n fun i j => mul m (tr A.f) LamA.f i j + Pp.f i j
+      let g := tv n fun i => tmulVec m A.f Lamd.f i + mulVec n Pp.f loc.f i
+      let C ← certInv n H
+      some (tv n (mulVec n C.f g.f), C)
+    s!"ok {fmtBool (adjOk && same)} {fmtV n mm.f} {fmtM n N B.f} {fmtM n n C.f} {optPair doc n}"
 
 def step : List String → String
   | "rto" :: ts =>
@@ -190,14 +239,14 @@ def step : List String → String
       if P.liks.any (·.refused) || P.prior.refused then "err:ValueError" else
       let pb := P.problem
       let N := rowsM pb
-      let b := tabV N (bTilde pb)
-      -- the matrix branch must describe the same operator as the function branch
-      let Mm := tabM N P.n (Mmat P.matLiks P.prior.prior)
-      let same := (List.range N).all fun i => (List.range P.n).all fun j => Mm i j == Mfwd pb (unit j) i
-      match lsqReport N P.n (Mfwd pb) (Madj pb) b with
+      let b := tv N (bTilde pb)
+      match lsqReport N P.n (Mfwd pb) (Madj pb) b.f with
       | none => "singular"
-      | some (adjOk, m, B, C) =>
-        s!"ok {fmtBool (adjOk && same)} {fmtV P.n m} {fmtM P.n N B} {fmtM P.n P.n C} {optPair (moments P true) P.n} {optPair (moments P false) P.n}"
+      | some (adjOk, M, m, B, C) =>
+        -- the matrix branch must describe the same operator as the function branch
+        let Mm := Mmat P.matLiks P.prior.prior
+        let same := (List.range N).all fun i => (List.range P.n).all fun j => Mm i j == M.f i j
+        s!"ok {fmtBool (adjOk && same)} {fmtV P.n m.f} {fmtM P.n N B.f} {fmtM P.n P.n C.f} {optPair (moments P true) P.n} {optPair (moments P false) P.n}"
     | _ => "bad-op"
   | "step" :: ts =>
     match parseProblem ts with
@@ -206,53 +255,39 @@ def step : List String → String
       | some e, some x0, some maxit, some tol2, some eps =>
         if P.liks.any (·.refused) || P.prior.refused then "err:ValueError" else
         let pb := P.problem
-        let st := rtoStep pb (vecOf e) (vecOf x0) maxit tol2 eps
+        let st := rtoStep pb (tvOf e).f (tvOf x0).f maxit tol2 eps
         s!"ok {fmtV P.n st.x} {st.k} {fmtBool (st.gamma == 0)}"
       | _, _, _, _, _ => "bad-op"
     | _ => "bad-op"
-  | ["ugla", n, m, A, d, L1, kd, sh, p, D, loc, s, w, invScale, wdoc] =>
-    match n.toNat?, m.toNat?, parseMat A, parseVec d, parseMat L1, parseKind kd, parseShape sh, p.toNat?,
-          parseMat D, parseVec loc, parseRat s, parseVec w, parseRat invScale, parseVec wdoc with
-    | some n, some m, some A, some d, some L1, some kd, some (sh, _, _), some p, some D, some loc, some s,
-      some w, some invScale, some wdoc =>
-      let U : Ugla Q := { n := n, lik := { m := m, L := matOf L1, A := matOf A, d := vecOf d }, p := p,
-                          D := matOf D, loc := vecOf loc, s := s, w := vecOf w }
-      let N := U.rows
-      let same := (List.range N).all fun i => (List.range n).all fun j => U.Mmat i j == U.Mfwd (unit j) i
-      match lsqReport N n U.Mfwd U.Madj (tabV N U.bTilde) with
-      | none => "singular"
-      | some (adjOk, mm, B, C) =>
-        -- documented local Gaussian: precision AᵀΛA + (1/scale) Dᵀ diag(wdoc) D
-        let doc : Option (Vec Q × Mat Q) := do
-          let Lam ← precOf false m kd sh
-          let Am := matOf A
-          let Dm := matOf D
-          let Pp : Mat Q := tabM n n fun i j => invScale * sumTo p fun k => Dm k i * (vecOf wdoc k * Dm k j)
-          let H : Mat Q := tabM n n fun i j => mul m (tr Am) (tabM m n (mul m Lam Am)) i j + Pp i j
-          let g : Vec Q := tabV n fun i => tmulVec m Am (tabV m (mulVec m Lam (vecOf d))) i + mulVec n Pp (vecOf loc) i
-          let C ← certInv n H
-          some (tabV n (mulVec n C g), C)
-        s!"ok {fmtBool (adjOk && same)} {fmtV n mm} {fmtM n N B} {fmtM n n C} {optPair doc n}"
-    | _, _, _, _, _, _, _, _, _, _, _, _, _, _ => "bad-op"
+  | ["ugla", n, m, A, d, L1, kd, sh, p, D, loc, s, w, invScale, wdoc] => Id.run do
+    let some n := n.toNat? | return "bad-op"
+    let some m := m.toNat? | return "bad-op"
+    let some A := parseMat A | return "bad-op"
+    let some d := parseVec d | return "bad-op"
+    let some L1 := parseMat L1 | return "bad-op"
+    let some kd := parseKind kd | return "bad-op"
+    let some (sh, _, _) := parseShape sh | return "bad-op"
+    let some p := p.toNat? | return "bad-op"
+    let some D := parseMat D | return "bad-op"
+    let some loc := parseVec loc | return "bad-op"
+    let some s := parseRat s | return "bad-op"
+    let some w := parseVec w | return "bad-op"
+    let some invScale := parseRat invScale | return "bad-op"
+    let some wdoc := parseVec wdoc | return "bad-op"
+    return runUgla n m (tmOf A) (tvOf d) (tmOf L1) kd sh p (tmOf D) (tvOf loc) s (tvOf w) invScale (tvOf wdoc)
   | "validate" :: "rto" :: t :: k :: ts =>
-    let tk : Option TargetKind := match t with
-      | "posterior" => some .posterior | "multiple" => some .multiple | "other" => some .other | _ => none
-    match tk, k.toNat? with
+    match parseTarget t, k.toNat? with
     | some tk, some k =>
       let flags := ts.map (· == "1")
       if flags.length != 2 * k + 2 || ts.any (fun s => s != "0" && s != "1") then "bad-op" else
       let liks := (List.range k).map fun i => (flags.getD (2 * i) false, flags.getD (2 * i + 1) false)
-      match validateRTO tk liks (flags.getD (2 * k) false) (flags.getD (2 * k + 1) false) with
-      | .ok => "ok" | .valueError => "ValueError" | .typeError => "TypeError"
+      fmtRefusal (validateRTO tk liks (flags.getD (2 * k) false) (flags.getD (2 * k + 1) false))
     | _, _ => "bad-op"
   | ["validate", "ugla", t, a, b, c] =>
-    let tk : Option TargetKind := match t with
-      | "posterior" => some .posterior | "multiple" => some .multiple | "other" => some .other | _ => none
-    match tk with
+    match parseTarget t with
     | some tk =>
       if [a, b, c].any (fun s => s != "0" && s != "1") then "bad-op" else
-      match validateUGLA tk (a == "1") (b == "1") (c == "1") with
-      | .ok => "ok" | .valueError => "ValueError" | .typeError => "TypeError"
+      fmtRefusal (validateUGLA tk (a == "1") (b == "1") (c == "1"))
     | none => "bad-op"
   | _ => "bad-op"
 
